@@ -66,6 +66,101 @@ def rule_boolop_or(ctx, rep):
         raise AnalysisError("combine_calls_base BooleanOperation matchers not found")
 
 
+def _path_from(e: ast.expr, root: str):
+    """attribute / constant-subscript chain from the parameter `root`: returns the list of steps, or None"""
+    steps = []
+    while True:
+        if isinstance(e, ast.Attribute):
+            steps.append(e.attr)
+            e = e.value
+        elif isinstance(e, ast.Subscript) and isinstance(e.slice, ast.Constant) and isinstance(e.slice.value, int):
+            steps.append(e.slice.value)
+            e = e.value
+        elif isinstance(e, ast.Name) and e.id == root:
+            return list(reversed(steps))
+        else:
+            return None
+
+
+def _matcher_at(matcher: ast.expr, steps: list):
+    """Follow a node path through an `m.X(field=..., ...)` matcher expression; returns the matcher expression found there or None."""
+    cur = matcher
+    for st in steps:
+        if isinstance(st, str):
+            if not isinstance(cur, ast.Call):
+                return None
+            cur = next((k.value for k in cur.keywords if k.arg == st), None)
+        else:
+            if not isinstance(cur, (ast.List, ast.Tuple)) or not (-len(cur.elts) <= st < len(cur.elts)):
+                return None
+            cur = cur.elts[st]
+        if cur is None:
+            return None
+    return cur
+
+
+def rule_same_receiver(ctx, rep):
+    rep.rule(
+        "R-SAME-RECEIVER",
+        "the fold of two calls into one (combine-startswith-endswith, combine-isinstance-issubclass) is made only when both act on the same "
+        "object: check_calls_same_instance compares the identifiers of two nodes that the codemod's own call matcher restricts to plain names "
+        "(or compares the subtrees with deep_equals).  A projection that forgets parts of the expression (get_full_name_for_node drops "
+        "subscripts and call arguments; `.attr` keeps only the last name) folds `rows[0].name.startswith(..) or rows[1].name.startswith(..)` "
+        "onto one of the two objects",
+        min_instances=2,
+    )
+    n = 0
+    for cq in sorted(ctx.prog.all_subclasses(COMBINE)):
+        c = ctx.prog.classes[cq]
+        same = ctx.prog.lookup_method(cq, "check_calls_same_instance")
+        mk = ctx.prog.lookup_method(cq, "make_call_matcher")
+        if same is None or mk is None or same.cls.qname == COMBINE:
+            continue
+        n += 1
+        pp = same.positional_params()
+        if len(pp) < 3:
+            raise AnalysisError(f"{same.qname}: unexpected signature")
+        L, R = pp[1], pp[2]
+        r = ctx.resolver(same)
+        rets = [x.value for x in walk_no_nested(same.node) if isinstance(x, ast.Return) and x.value is not None]
+        ok, why = bool(rets), "no return"
+        for rv in rets:
+            rv = r.expand(rv) if isinstance(rv, ast.Name) else rv
+            if isinstance(rv, ast.Call) and last_attr(rv.func) == "deep_equals":
+                args = [rv.func.value] + list(rv.args) if isinstance(rv.func, ast.Attribute) and len(rv.args) == 1 else list(rv.args)
+                pl = [_path_from(a, L) or _path_from(a, R) for a in args]
+                if len(args) == 2 and pl[0] is not None and pl[0] == pl[1]:
+                    continue
+                ok, why = False, f"`{unparse(rv)[:60]}` does not compare the same position of both calls"
+                continue
+            if not (isinstance(rv, ast.Compare) and len(rv.ops) == 1 and isinstance(rv.ops[0], ast.Eq)):
+                ok, why = False, f"`{unparse(rv)[:60]}` is not an equality of two receivers"
+                continue
+            a, b = rv.left, rv.comparators[0]
+            pa, pb = _path_from(a, L), _path_from(b, R)
+            if pa is None or pb is None:
+                pa, pb = _path_from(a, R), _path_from(b, L)
+            if pa is None or pb is None or pa != pb:
+                ok, why = False, f"`{unparse(rv)[:70]}` compares a projection of the receivers, not the receivers (a lossy name such as get_full_name_for_node / `.attr` treats different objects as one)"
+                continue
+            if not pa or pa[-1] != "value":
+                ok, why = False, f"`{unparse(rv)[:70]}` compares node objects with == (identity of freshly parsed nodes), not their identifiers"
+                continue
+            # the node whose `.value` is compared must be restricted to m.Name() by the codemod's matcher
+            mrets = [x.value for x in walk_no_nested(mk.node) if isinstance(x, ast.Return) and x.value is not None]
+            restricted = bool(mrets)
+            for mv in mrets:
+                at = _matcher_at(mv, pa[:-1])
+                if not (isinstance(at, ast.Call) and last_attr(at.func) == "Name" and not at.args and not [k for k in at.keywords if k.arg != "value"]):
+                    restricted = False
+                    why = (f"the matcher allows `{unparse(at)[:50] if at is not None else 'anything'}` at `{'.'.join(map(str, pa[:-1]))}`, so `.value` there is a "
+                           "sub-node or a partial name, not the whole receiver")
+            ok = ok and restricted
+        rep.check("R-SAME-RECEIVER", same.qname, same.loc(), ok, "same-object", why if not ok else "")
+    if n < 2:
+        raise AnalysisError(f"only {n} concrete check_calls_same_instance found under {COMBINE}")
+
+
 def _fresh_ctor(ctx, fn: FuncInfo, v: ast.expr, depth: int = 3):
     """If v is (a local bound to) a direct libcst node construction, return the constructor call."""
     r = ctx.resolver(fn)
@@ -631,6 +726,7 @@ def check(ctx, rep):
         "expressions, argument-list preservation, and the comparison-inversion table against a fixed truth table of the ten operators."
     )
     rule_boolop_or(ctx, rep)
+    rule_same_receiver(ctx, rep)
     rule_paren_safe(ctx, rep)
     rule_paren_child(ctx, rep)
     rule_args(ctx, rep)
